@@ -1142,6 +1142,12 @@ func (t *Topic) handlePubBroadcast(msg *ClientComMessage) {
 		return
 	}
 
+	if _, err := t.verifyChannelAccess(msg.Original); err != nil {
+		// User should not be able to address non-channel topic as channel.
+		msg.sess.queueOut(ErrNotFoundReply(msg, types.TimeNow()))
+		return
+	}
+
 	isCall := msg.Pub.Head != nil && msg.Pub.Head["webrtc"] != nil
 	if isCall {
 		if len(globals.iceServers) == 0 {
